@@ -23,16 +23,24 @@ Strs == { <<a>>, <<sp>>, <<b, nl>> }
 
 On == TRUE
 Log == hist' = Append(hist, op') /\ prev' = t
-Do(e) == LET r == Apply(t, e) IN t' = Settle(r.cur) /\ sib' = (IF r.err = "none" /\ Derives(e, r) THEN t ELSE sib) /\ op' = e /\ Log
+Do(e) == LET r == Apply(t, sib, e) IN t' = Settle(r.cur) /\ sib' = (IF r.err = "none" /\ Derives(e, r) THEN t ELSE sib) /\ op' = e /\ Log
 \* continue with the object the current one was derived from (it must be unaffected by later edits)
 SwapA       == On /\ t' = sib /\ sib' = t /\ op' = [k |-> "swap"] /\ Log
 
 New         == \E l \in Lits : On /\ Do([k |-> "new", t |-> l])
-AppendStrA  == \E s \in Strs, y \in {0, 2} : On /\ Do([k |-> "append_str", str |-> s, sty |-> y])
-AppendTextA == \E l \in SmallLits, v \in {"append", "append_text", "add"} : On /\ Do([k |-> "append_text", t |-> l, via |-> v])
+AppendStrA  == \E s \in Strs, y \in {0, 2}, v \in {"append", "add"} : On /\ Do([k |-> "append_str", str |-> s, sty |-> IF v = "add" THEN 0 ELSE y, via |-> v])
+NoLit == [str |-> <<>>, base |-> 0, spans |-> <<>>]
+AppendTextA == \/ \E l \in SmallLits, v \in {"append", "append_text", "add"} : On /\ Do([k |-> "append_text", t |-> l, via |-> v, src |-> "lit"])
+               \/ \E v \in {"append_text", "add"} : On /\ Do([k |-> "append_text", t |-> NoLit, via |-> v, src |-> "sib"])
+\* src = "cur": a text appended to itself
+AppendSelfA == \E v \in {"append", "append_text", "add"} : On /\ Do([k |-> "append_text", t |-> NoLit, via |-> v, src |-> "cur"])
+AppendTokensA == \E y \in {0, 3} : On /\ Do([k |-> "append_tokens", toks |-> << [str |-> <<a, sp>>, sty |-> y], [str |-> <<>>, sty |-> 1], [str |-> <<wd>>, sty |-> 2] >>])
 AssembleA   == \E y \in {0, 4} : On /\ Do([k |-> "assemble", base |-> y,
-                   parts |-> << [kind |-> "str", str |-> <<a>>, sty |-> 1], [kind |-> "cur"] >>])
-JoinA       == \E l \in SmallLits : On /\ Do([k |-> "join", sep |-> l, others |-> << [str |-> <<a>>, base |-> 4, spans |-> <<>>] >>, pos |-> 1])
+                   parts |-> << [kind |-> "str", str |-> <<a>>, sty |-> 1], [kind |-> "cur"], [kind |-> "sib"] >>])
+JoinA       == \E l \in SmallLits, v \in {<<"lit", 0 - 1>>, <<"cur", 0 - 1>>, <<"sib", 2>>} :
+                   /\ (v[1] # "lit" => l.base = 3)
+                   /\ Do([k |-> "join", sep |-> IF v[1] = "lit" THEN l ELSE NoLit, sepsrc |-> v[1],
+                          others |-> << [str |-> <<a>>, base |-> 4, spans |-> <<>>] >>, pos |-> 1, sibpos |-> v[2]])
 SplitA      == \E s \in {<<10>>, <<32>>}, i \in BOOLEAN, ab \in BOOLEAN, p \in {1, 2} :
                    On /\ Do([k |-> "split", sep |-> s, inc |-> i, ab |-> ab, pick |-> p])
 DivideA     == \E o \in {<<1>>, <<0, 2>>, <<1, 1>>}, p \in {1, 2} :
@@ -42,7 +50,11 @@ IndexA      == \E i \in {0 - 1, 0, 1, 7} : On /\ Do([k |-> "index", i |-> i])
 SliceA      == \E ab \in {<<1, 3>>, <<0 - 2, 9>>, <<2, 1>>} , hb \in BOOLEAN :
                    On /\ Do([k |-> "slice", hasA |-> TRUE, a |-> ab[1], hasB |-> hb, b |-> ab[2]])
 PadA        == \E n \in {0, 1}, kind \in {"pad", "pad_left", "pad_right"} : On /\ Do([k |-> kind, n |-> n, ch |-> <<45, 1>>])
-AlignA      == \E h \in {"left", "center", "right"}, w \in {1, 4} : On /\ Do([k |-> "align", how |-> h, width |-> w, ch |-> sp])
+AlignA      == \E h \in {"left", "center", "right"}, w \in {1, 4} : On /\ Do([k |-> "align", how |-> h, width |-> w, ch |-> sp, ov |-> "fold"])
+FitA        == \E w \in {0, 2}, p \in {1, 2} : On /\ Do([k |-> "fit", w |-> w, pick |-> p])
+JustifyA    == \E h \in {"left", "center", "right"}, v \in {<<2, "ellipsis">>, <<5, "fold">>} : On /\ Do([k |-> "justify", how |-> h, w |-> v[1], ov |-> v[2]])
+BlankCopyA  == On /\ Do([k |-> "blank_copy"])
+SetPlainA   == \E s \in {<<>>, <<a>>, <<b, sp, wd, a, a>>} : On /\ Do([k |-> "set_plain", str |-> s])
 TruncateA   == \E w \in {1, 2, 3}, o \in {"crop", "ellipsis", "ignore"}, p \in BOOLEAN :
                    On /\ Do([k |-> "truncate", w |-> w, ov |-> o, pad |-> p])
 RightCropA  == \E n \in {0, 1, 9} : On /\ Do([k |-> "right_crop", n |-> n])
@@ -60,6 +72,7 @@ Init == t = [chars |-> <<>>, base |-> 0] /\ sib = [chars |-> <<>>, base |-> 0] /
 Next == New \/ AppendStrA \/ AppendTextA \/ AssembleA \/ JoinA \/ SplitA \/ DivideA \/ IndexA \/ SliceA
         \/ PadA \/ AlignA \/ TruncateA \/ RightCropA \/ SetLengthA \/ ExpandTabsA \/ CopyA \/ RstripA
         \/ RstripEndA \/ RemoveSuffixA \/ StylizeA \/ CopyStylesA \/ SwapA
+        \/ AppendSelfA \/ AppendTokensA \/ FitA \/ JustifyA \/ BlankCopyA \/ SetPlainA
 Spec == Init /\ [][Next]_vars
 
 \* ---- laws of the reference semantics -------------------------------------------------------
@@ -79,6 +92,11 @@ TruncateFits == (op.k = "truncate" /\ op.ov # "ignore") =>
                    /\ (SumW(prev.chars) > op.w => SumW(t.chars) = op.w)
                    /\ (op.pad /\ SumW(prev.chars) <= op.w => SumW(t.chars) = op.w)
 AlignExact == op.k = "align" => SumW(t.chars) = op.width
+JustifyExact == (op.k = "justify" /\ op.how = "left") => SumW(t.chars) = op.w
+FitExact == op.k = "fit" => \A i \in DOMAIN Fit(prev, op.w) : Len(Fit(prev, op.w)[i].chars) = op.w
+BlankCopyEmpty == op.k = "blank_copy" => t.chars = <<>> /\ t.base = prev.base
+SetPlainCodes == op.k = "set_plain" => Codes(t.chars) = [i \in DOMAIN op.str |-> op.str[i][1]]
+TokensAppend == op.k = "append_tokens" => IsPrefix(prev.chars, t.chars)
 SetLengthExact == op.k = "set_length" => Len(t.chars) = op.n
 NoTabsLeft == op.k = "expand_tabs" => \A i \in DOMAIN t.chars : t.chars[i].c # Tab
 SurvivorsKeepStyle ==   \* a crop / pad / copy never alters the style of a character it keeps
